@@ -4,7 +4,8 @@ plumbing of `Simulator.simulate_to_steady_state` / `get_result` (simulator.py) a
 default (scan.py).  Import-free executable model.
 
 The integrator (`scipy.integrate.ode`) is a parameter: `step : σ → σ` advances the state by `step_size`
-time units.  `ode.integrate` returns ITS OWN BUFFER, which the next call overwrites in place; the model makes
+time units.  The `Scipy` object around it (`t0`, `y0`, `_y0_orig`) is `Integ`: the search starts at the state the
+integrator CURRENTLY holds and, on success, moves it to the reported time and state (`continues`, read from the source).  `ode.integrate` returns ITS OWN BUFFER, which the next call overwrites in place; the model makes
 that explicit: `y1` is either a value of its own or a reference to the integrator's buffer.
 -/
 namespace Mxl.C15
@@ -18,28 +19,66 @@ deriving Repr
 inductive Outcome (σ : Type) where
   | steady (n : Nat) (y : σ)     -- `Result(TimeCourse(time=[t0 + n*step_size], values=[y]))`
   | noSteadyState                 -- `Result(NoSteadyState())`
+  | integrationFailure            -- `Result(IntegrationFailure())`: the solver gave up (`not integ.successful()`)
 deriving Repr, DecidableEq
 
 /-- the `for _ in range(max_steps)` loop.  `i` iterations are done, `buf` is the integrator's buffer.
-`copies = true`: the code rebinds `y1` to a copy of `y2`; `false`: `y1 = y2` (alias of the buffer). -/
-def ssLoop {σ : Type} (copies : Bool) (step : σ → σ) (small : σ → σ → Bool) :
+`copies = true`: the code rebinds `y1` to a copy of `y2`; `false`: `y1 = y2` (alias of the buffer).
+`ok buf'` is `integ.successful()` after the step; `checks` = the loop asks it (since the repair of F-C15-3) and stops
+with `IntegrationFailure` instead of comparing the state of a solver that has given up. -/
+def ssLoop {σ : Type} (copies checks : Bool) (step : σ → σ) (ok : σ → Bool) (small : σ → σ → Bool) :
     Nat → Nat → Prev σ → σ → Outcome σ
   | 0, _, _, _ => .noSteadyState
   | fuel + 1, i, y1, buf =>
     let buf' := step buf                                  -- y2 = integ.integrate(t): buffer overwritten
+    if checks && !ok buf' then .integrationFailure        -- if not integ.successful(): return Result(IntegrationFailure())
+    else
     let y1v := match y1 with | .val v => v | .buffer => buf'   -- what `y1` reads as NOW
     if small buf' y1v then .steady (i + 1) buf'          -- norm(diff) < tolerance
-    else ssLoop copies step small fuel (i + 1) (if copies then .val buf' else .buffer) buf'
+    else ssLoop copies checks step ok small fuel (i + 1) (if copies then .val buf' else .buffer) buf'
 
-/-- `integrate_to_steady_state`: `reset()`, `y1 = deepcopy(y0)`, loop -/
-def ssRun {σ : Type} (copies : Bool) (step : σ → σ) (small : σ → σ → Bool) (maxSteps : Nat) (y0 : σ) :
-    Outcome σ :=
-  ssLoop copies step small maxSteps 0 (.val y0) y0
+/-- the search itself: `y1 = deepcopy(self.y0)` + loop, from the state `y0` the integrator currently holds
+(since the repair of F-C04-2 that is the CURRENT state, not the initial conditions) -/
+def ssRun {σ : Type} (copies checks : Bool) (step : σ → σ) (ok : σ → Bool) (small : σ → σ → Bool)
+    (maxSteps : Nat) (y0 : σ) : Outcome σ :=
+  ssLoop copies checks step ok small maxSteps 0 (.val y0) y0
 
 /-- `n` integrator steps from `x` (the exact flow sampled every `step_size`) -/
 def iter {σ : Type} (f : σ → σ) : Nat → σ → σ
   | 0, x => x
   | n + 1, x => iter f n (f x)
+
+/-! ### the integrator object around the loop (`Scipy.t0`, `Scipy.y0`, `Scipy._y0_orig`) -/
+
+structure Integ (σ : Type) where
+  t0 : Rat
+  y0 : σ
+  y0orig : σ
+deriving Repr
+
+/-- `Scipy.reset` -/
+def Integ.reset {σ : Type} (g : Integ σ) : Integ σ := { g with t0 := 0, y0 := g.y0orig }
+
+/-- what `integrate_to_steady_state` returns: `Result(TimeCourse(time=[t], values=[y2]))` or `Result(NoSteadyState())` -/
+inductive SSResult (σ : Type) where
+  | timeCourse (t : Rat) (y : σ)
+  | noSteadyState
+  | integrationFailure
+deriving Repr
+
+/-- `Scipy.integrate_to_steady_state` as a method: the result and the integrator afterwards.
+`continues = true` (current tree): the `ode` object starts at (`self.t0`, `self.y0`), `t = self.t0 + step_size`, and the
+success branch advances `self.t0 = t; self.y0 = y2.copy()`.  `continues = false` (before the repair of F-C04-2):
+`self.reset()` first and no advance.  A failed search leaves the integrator where it was. -/
+def integrateToSteadyState {σ : Type} (continues copies checks : Bool) (step : σ → σ) (ok : σ → Bool)
+    (small : σ → σ → Bool) (maxSteps stepSize : Nat) (g : Integ σ) : SSResult σ × Integ σ :=
+  let g0 := if continues then g else g.reset
+  match ssRun copies checks step ok small maxSteps g0.y0 with
+  | .steady n y =>
+    let t := g0.t0 + (n : Rat) * (stepSize : Rat)          -- `t = self.t0 + step_size`, then `t += step_size` per round
+    (.timeCourse t y, if continues then { g0 with t0 := t, y0 := y } else g0)
+  | .noSteadyState => (.noSteadyState, g0)
+  | .integrationFailure => (.integrationFailure, g0)
 
 /-! ### error plumbing -/
 
@@ -49,28 +88,43 @@ inductive SimErr where
   | other
 deriving Repr, DecidableEq
 
+/-- a failure outcome of the loop and the error `get_result()` then holds -/
+def errOf {σ : Type} : Outcome σ → Option SimErr
+  | .noSteadyState => some .noSteadyState
+  | .integrationFailure => some .integrationFailure
+  | .steady _ _ => none
+
 /-- the part of `Simulator` that the steady-state path touches -/
 structure Sim (σ : Type) where
   errors : List SimErr
-  variables : Option (List (Nat × σ))     -- (time / 1, state) rows; time = n * step_size
+  variables : Option (List (Rat × σ))     -- (absolute time, state) rows
+  timeShift : Option Rat                  -- `_time_shift` (set by `update_variables` after a simulation)
+  integ : Integ σ
 deriving Repr
 
-def Sim.fresh {σ : Type} : Sim σ := ⟨[], none⟩
+/-- `Simulator(model, y0)` -/
+def Sim.fresh {σ : Type} (y0 : σ) : Sim σ := ⟨[], none, none, ⟨0, y0, y0⟩⟩
 
 /-- `_handle_simulation_results(result, skipfirst=False)` -/
-def handleResult {σ : Type} (stepSize : Nat) (s : Sim σ) : Outcome σ → Sim σ
-  | .steady n y =>
+def handleResult {σ : Type} (s : Sim σ) : SSResult σ → Sim σ
+  | .timeCourse t y =>
+    let t := match s.timeShift with | some sh => t + sh | none => t      -- `time += self._time_shift`
     match s.variables with
-    | none => { s with variables := some [(n * stepSize, y)] }
-    | some rows => { s with variables := some (rows ++ [(n * stepSize, y)]) }
+    | none => { s with variables := some [(t, y)] }
+    | some rows => { s with variables := some (rows ++ [(t, y)]) }
   | .noSteadyState => { s with errors := s.errors ++ [.noSteadyState] }
+  | .integrationFailure => { s with errors := s.errors ++ [.integrationFailure] }
 
 /-- `simulate_to_steady_state` -/
-def simulateToSteadyState {σ : Type} (stepSize : Nat) (s : Sim σ) (integ : Unit → Outcome σ) : Sim σ :=
-  if s.errors.length > 0 then s else handleResult stepSize s (integ ())
+def simulateToSteadyState {σ : Type} (continues copies checks : Bool) (step : σ → σ) (ok : σ → Bool)
+    (small : σ → σ → Bool) (maxSteps stepSize : Nat) (s : Sim σ) : Sim σ :=
+  if s.errors.length > 0 then s
+  else
+    let (r, g) := integrateToSteadyState continues copies checks step ok small maxSteps stepSize s.integ
+    handleResult { s with integ := g } r
 
 /-- `get_result`: the first error, else the collected rows -/
-def getResult {σ : Type} (s : Sim σ) : Except SimErr (List (Nat × σ)) :=
+def getResult {σ : Type} (s : Sim σ) : Except SimErr (List (Rat × σ)) :=
   match s.errors with
   | e :: _ => .error e
   | [] =>
@@ -79,7 +133,7 @@ def getResult {σ : Type} (s : Sim σ) : Except SimErr (List (Nat × σ)) :=
     | some rows => .ok rows
 
 /-- a row of `scan.steady_state(...).variables`: `none` = the NaN row of `Simulation.default` -/
-def workerRow {σ : Type} (r : Except SimErr (List (Nat × σ))) : Option σ :=
+def workerRow {σ : Type} (r : Except SimErr (List (Rat × σ))) : Option σ :=
   match r with
   | .ok rows => rows.getLast?.map (·.2)
   | .error _ => none
@@ -104,5 +158,18 @@ def dot (a b : List Rat) : Rat := (List.zipWith (· * ·) a b).foldl (· + ·) 0
 /-- exact flow over one step of a linear network: `y ↦ C y + d` -/
 def affine (C : List (List Rat)) (d : List Rat) (y : List Rat) : List Rat :=
   List.zipWith (· + ·) (C.map fun row => dot row y) d
+
+/-- exact flow over one step (100 time units) of dx/dt = x² (first component; finite-time blow-up at t = 1/x) next to
+relaxing components `z ↦ zs + (z − zs)·c`: x(t+100) = x / (1 − 100·x) while the singularity is not reached.  `[]`
+stands for a solver that has given up (no state to hand back). -/
+def blowStep (c zs : List Rat) : List Rat → List Rat
+  | [] => []
+  | x :: zs' =>
+    if 100 * x < 1 then
+      (x / (1 - 100 * x)) :: List.zipWith (· + ·) zs (List.zipWith (· * ·) c (List.zipWith (· - ·) zs' zs))
+    else []
+
+/-- `integ.successful()` for the driver's state type -/
+def okState (y : List Rat) : Bool := !y.isEmpty
 
 end Mxl.C15
